@@ -39,6 +39,10 @@ def cases(draw, tier="quick"):
 
 MATRIX_PARAMS = {"name": ["\"x_y\"", None], "vis": ["\"pub\"", "\"pub(crate)\"", "\"\"", None], "mode": ["\"table\"", "\"match\"", "\"auto\"", None],
                  "struct_name": ["\"XStruct\"", None], "value": [None, "\"x\""], "bogus": [None, "\"x\""], "rename": ["\"x\""]}
+COMPANION = {"mode": [("as_str", "as_str(mode = \"table\")"), ("iter", "iter(mode = \"table\")")],
+             "name": [("into", "into(name = \"x_y\")")],
+             "vis": [("next", "next(vis = \"pub\")")],
+             "struct_name": [("iter", "iter(struct_name = \"XStruct\")"), ("names", "names(struct_name = \"XStruct\")")]}
 MATRIX_SHAPES = [("u8", [0, 1, 2]), ("i16", [-5, -4, 3, 9])]
 
 
@@ -116,6 +120,20 @@ def run_param_matrix(case):
                     feats = ([{"f": "iter", "params": []}] if fname == "range" else []) + [{"f": "_raw", "raw": "%s(%s)" % (fname, ptxt)}]
                     cfg = {"feats": feats, "groups": [len(feats)], "pos": ["pre"]}
                     jobs.append((fname, ptxt, E.enum_item_text(spec, cfg)))
+                    # the same foreign parameter while another feature of the derive legitimately carries it
+                    comp = COMPANION.get(pname)
+                    if comp and form is not None and r == MATRIX_SHAPES[0][0]:
+                        for cf, craw in comp:
+                            if cf == fname or (cf == "iter" and fname == "range"):
+                                continue
+                            for order in (0, 1):
+                                fl = [{"f": "_raw", "raw": craw}, {"f": "_raw", "raw": "%s(%s)" % (fname, ptxt)}]
+                                if fname == "range" and cf != "iter":
+                                    fl.append({"f": "iter", "params": []})
+                                if order:
+                                    fl.reverse()
+                                c2 = {"feats": fl, "groups": [1, len(fl) - 1] if order else [len(fl)], "pos": ["pre", "post"] if order else ["pre"]}
+                                jobs.append((fname, ptxt + " with " + craw, E.enum_item_text(spec, c2)))
     with concurrent.futures.ThreadPoolExecutor(max_workers=16) as ex:
         res = list(ex.map(lambda j: J.accepts(j[2])[0], jobs))
     for (fname, ptxt, item), ok in zip(jobs, res):
